@@ -330,7 +330,8 @@ func (runInfo *runInfoStruct) invokeUnaryExpr(expr *ast.UnaryExpr) {
 		switch runInfo.rv.Kind() {
 		case reflect.Int64:
 			runInfo.rv = int64Value(-runInfo.rv.Int())
-		case reflect.Int32, reflect.Int16, reflect.Int8, reflect.Int, reflect.Bool:
+		case reflect.Int32, reflect.Int16, reflect.Int8, reflect.Int, reflect.Bool,
+			reflect.Uint, reflect.Uint8, reflect.Uint16, reflect.Uint32, reflect.Uint64, reflect.Uintptr:
 			runInfo.rv = int64Value(-toInt64(runInfo.rv))
 		case reflect.Float64:
 			runInfo.rv = float64Value(-runInfo.rv.Float())
